@@ -282,6 +282,35 @@ impl Fam for TextAndElems {
     }
 }
 
+/// `$text`, then a (possibly empty) list field, then an element
+#[derive(Serialize, Deserialize, PartialEq, Debug, Clone)]
+pub struct TextVecElem {
+    #[serde(rename = "$text", default)]
+    pub t: String,
+    #[serde(default)]
+    pub v: Vec<u8>,
+    #[serde(default)]
+    pub w: Vec<Inner>,
+    pub e: String,
+}
+impl Fam for TextVecElem {
+    const NAME: &'static str = "TextVecElem";
+    const ELEMENT_ONLY: bool = true;
+    fn values(_level: usize) -> Vec<Self> {
+        let mut v = Vec::new();
+        for t in ["", "x", "a b"] {
+            for l in [vec![], vec![1u8], vec![2, 3]] {
+                for w in [vec![], vec![Inner { id: 1, name: "n".into() }]] {
+                    for e in ["1", ""] {
+                        v.push(TextVecElem { t: t.to_string(), v: l.clone(), w: w.clone(), e: e.to_string() });
+                    }
+                }
+            }
+        }
+        v
+    }
+}
+
 #[derive(Serialize, Deserialize, PartialEq, Debug, Clone)]
 pub struct ValueString {
     #[serde(rename = "@k")]
@@ -825,7 +854,7 @@ impl Fam for Renamed {
 macro_rules! for_each_type {
     ($mac:ident) => {
         $mac!(
-            Attrs, OptAttr, Children, TextDefault, TextPlain, TextAndElems, ValueString, OptElems, VecElems, VecStructs, TextList,
+            Attrs, OptAttr, Children, TextDefault, TextPlain, TextAndElems, TextVecElem, ValueString, OptElems, VecElems, VecStructs, TextList,
             AttrList, UnitEnums, OneChoice, Mixed, Nested, MapHolder, NewtypeStr, NewtypeHolder, Numbers, TopEnum, Renamed
         );
     };
